@@ -1,8 +1,112 @@
-(** C17  Block sync delivers a gap-free ascending linked chain from a true common ancestor. *)
+(** C17  Block sync delivers a gap-free ascending linked chain from a true common ancestor.
+    Only statements, each closed by [exact] of a lemma proved in Syncer/*.v, followed by
+    [Print Assumptions].  Models: Syncer/Model.v (BlockFetcher + BlockProcessor after the F16
+    repair), Syncer/Finder.v, Syncer/Session.v. *)
 From Coq Require Import ZArith NArith List Bool.
-From Verif Require Import Syncer.Model Syncer.Proofs.
+From Verif Require Import Syncer.Model Syncer.Proofs Syncer.Theorems Syncer.Finder Syncer.FinderProofs Syncer.Session.
 Import ListNotations.
 
-Theorem C17_conn_queue_push_length : forall c q, length (conn_push c q) = S (length q).
-Proof. exact conn_push_length. Qed.
-Print Assumptions C17_conn_queue_push_length.
+(** The invariant of the fetcher/processor loop is kept by every event (any response of any
+    peer, stale or not, timeouts, hash sets, acknowledgements), and what one event hands to
+    the chain service continues the chain delivered so far. *)
+Theorem C17_step_inv : forall L c s e s' o, Inv L s -> ev_ok L e -> step c s e = (s', o) ->
+  Inv L s' /\ chain_from L (last_of s) (delivered o) /\ last_of s' = last (delivered o) (last_of s).
+Proof. exact step_ok. Qed.
+Print Assumptions C17_step_inv.
+
+(** For every event sequence the delivered blocks have heights ancestor+1, +2, ... (no gap,
+    no duplicate) and each is the block the hash list names at its height. *)
+Theorem C17_delivered_contiguous : forall L c np anc es s o i b,
+  Forall (ev_ok L) es -> run c (init_st np anc) es = (s, o) ->
+  nth_error (delivered o) i = Some b ->
+  b_no b = (b_no anc + 1 + N.of_nat i)%N /\ L (b_no b) = Some (b_hash b).
+Proof. exact delivered_contiguous. Qed.
+Print Assumptions C17_delivered_contiguous.
+
+(** Each delivered block is a child of the previously delivered one, the first of the
+    common ancestor (full after the F16 repair). *)
+Theorem C17_delivered_linked : forall L c np anc es s o i b,
+  Forall (ev_ok L) es -> run c (init_st np anc) es = (s, o) ->
+  nth_error (delivered o) i = Some b ->
+  b_prev b = b_hash (match i with O => anc | S j => nth j (delivered o) anc end).
+Proof. exact delivered_linked. Qed.
+Print Assumptions C17_delivered_linked.
+
+(** F16: the unrepaired pop test (first block number only) delivers Y3 after X2 for a hash
+    list spliced on a chunk boundary and reports success. *)
+Theorem C17_delivered_linked_refuted_unrepaired :
+  let '(_, o) := run_with pop_conn_f16 f16_cfg (init_st 2 f16_anc) f16_events in
+  delivered o = [mkBlk 1 101 100; mkBlk 2 102 101; mkBlk 3 203 202; mkBlk 4 204 203]
+  /\ stops o = [E_OK].
+Proof. exact delivered_linked_refuted_unrepaired. Qed.
+Print Assumptions C17_delivered_linked_refuted_unrepaired.
+
+(** Completion: the successful stop is sent only for the acknowledgement of the block being
+    connected when that block is the target ... *)
+Theorem C17_success_stop_only_for_target : forall c s e s' o,
+  step c s e = (s', o) -> In (OStop E_OK) o ->
+  exists cb, cur_blk s = Some cb /\ b_no cb = c_target c
+             /\ e = EAddRsp (b_no cb) (Some (b_hash cb)) false.
+Proof. exact success_stop_only_for_target. Qed.
+Print Assumptions C17_success_stop_only_for_target.
+
+(** ... every error is reported together with leaving the loop, after which nothing more
+    is sent. *)
+Theorem C17_error_stops : forall c s o e s' o',
+  finish c (s, o, Some e) = (s', o') -> stopped s' = true /\ o' = o ++ [OStop e].
+Proof. exact error_stops. Qed.
+Print Assumptions C17_error_stops.
+
+Theorem C17_stopped_ignores_events : forall c s e, stopped s = true -> step c s e = (s, []).
+Proof. exact stopped_ignores_events. Qed.
+Print Assumptions C17_stopped_ignores_events.
+
+(** A late AddBlockRsp of an earlier session (it carries no sequence number) that does not
+    name the block being connected can only stop the session with an error. *)
+Theorem C17_stale_add_rsp_stops : forall c s no h,
+  stopped s = false ->
+  (match cur_blk s with Some cb => b_no cb <> no \/ b_hash cb <> h | None => True end) ->
+  exists err, step c s (EAddRsp no (Some h) false) = (set_stopped s, [OStop err]) /\ err <> E_OK.
+Proof. exact stale_add_rsp_stops. Qed.
+Print Assumptions C17_stale_add_rsp_stops.
+
+(** Session layer: after any stop a new session starts with a fresh sequence number;
+    messages carrying an old number are dropped; AddBlockRsp is not (see above). *)
+Theorem C17_new_session_can_start : forall s q target best,
+  srunning s = true -> q = seq s -> (best < target)%N ->
+  let s1 := fst (recv s (MStop q)) in
+  recv s1 (MStart target best) = (mkSess (seq s + 1) true, Started).
+Proof. exact new_session_can_start. Qed.
+Print Assumptions C17_new_session_can_start.
+
+Theorem C17_stale_sequence_dropped : forall s q, (q <> seq s)%N ->
+  recv s (MSeq q) = (s, Dropped) /\ recv s (MStop q) = (s, Dropped).
+Proof. exact stale_sequence_dropped. Qed.
+Print Assumptions C17_stale_sequence_dropped.
+
+(** Finder: the light scan's result is one of the local anchors and on the remote main chain
+    when the peer answers with its findAncestor; whatever the peer answers the result lies
+    between the lowest anchor and the target. *)
+Theorem C17_ancestor_is_common : forall lc rc target h no,
+  lightscan lc target (find_ancestor rc (anchor_hashes lc)) = LFound h no ->
+  (exists a, In a (anchors lc) /\ hash_at lc a = Some h) /\ hash_at rc no = Some h
+  /\ (last_anchor lc <= no < target)%N.
+Proof. exact ancestor_is_common. Qed.
+Print Assumptions C17_ancestor_is_common.
+
+Theorem C17_lightscan_range : forall lc target ans h no,
+  lightscan lc target ans = LFound h no -> ans = Some (h, no) /\ (last_anchor lc <= no < target)%N.
+Proof. exact lightscan_range. Qed.
+Print Assumptions C17_lightscan_range.
+
+(** Binary search returns the highest common height when the chains share exactly a prefix
+    of [m] blocks within the searched range and the peer reports its own hashes. *)
+Theorem C17_fullscan_highest_common : forall lc rc m right fuel,
+  (forall i, (i < m)%N -> exists h, hash_at lc i = Some h /\ hash_at rc i = Some h) ->
+  (forall i, (m <= i <= right)%N -> exists a b, hash_at lc i = Some a /\ hash_at rc i = Some b /\ a <> b) ->
+  (m <= right + 1)%N -> (N.to_nat (right + 1) < fuel)%nat ->
+  bin_search fuel lc (truthful rc) 0 right None =
+  inl (if (m =? 0)%N then None
+       else match hash_at lc (m - 1) with Some h => Some (h, m - 1)%N | None => None end).
+Proof. exact fullscan_highest_common. Qed.
+Print Assumptions C17_fullscan_highest_common.
